@@ -85,6 +85,28 @@ theorem C20_regress_sentinel_pin :
     versionOf (mergeAll current numVer (fun _ => none) [(0, "p==_unpinned_version".toList)]) "p".toList = none := by
   decide
 
+/-- (fixed C20-F8) read with plain `utf-8` (`Cfg.preBomFix`) the byte-order mark of the file stayed in the first line
+and became part of the package name; today (`utf-8-sig`) the requirement is `p==1.0` -/
+theorem C20_regress_bom_first_line :
+    (mergeAll Cfg.preBomFix numVer (fun _ => none) (fileLines Cfg.preBomFix ⟨0, [], [BOM :: "p==1.0".toList]⟩)).map
+        (fun e => (e.name, e.version)) = [(BOM :: "p".toList, "1.0".toList)] ∧
+    (mergeAll current numVer (fun _ => none) (fileLines current ⟨0, [], [BOM :: "p==1.0".toList]⟩)).map
+        (fun e => (e.name, e.version)) = [("p".toList, "1.0".toList)] := by decide
+
+/-- **A byte-order mark changes nothing** for the code today: a file that starts with one yields exactly the lines
+that follow the mark, whatever they are; a file without one is read as it is -/
+theorem C20_bom_ignored (id : Nat) (dir : List Str) (l : Str) (ls : List Str) :
+    fileLines current ⟨id, dir, (BOM :: l) :: ls⟩ = (l :: ls).map (fun x => (id, x)) ∧
+    (l.head? ≠ some BOM → fileLines current ⟨id, dir, l :: ls⟩ = (l :: ls).map (fun x => (id, x))) := by
+  constructor
+  · simp [fileLines, decodeLines, current]
+  · intro h
+    cases l with
+    | nil => simp [fileLines, decodeLines, current]
+    | cons c cs =>
+      have hc : c ≠ BOM := fun e => h (by simp [e])
+      simp [fileLines, decodeLines, current, hc]
+
 /-- hence the full-strength statement was FALSE for the pre-fix code: `C20_order_full` cannot be proved for
 `Cfg.preFix`, the hypothesis of `C20_order_partial` is needed there -/
 theorem C20_regress_order_full_false :
@@ -117,18 +139,13 @@ theorem C20_cex_extras_override_host :
     (runOnce current numVer { site := [("p".toList, "2.0".toList)], index := [] } true [] [(0, "p[extra]==1.0".toList)]).1.site
       = [("p".toList, "1.0".toList)] := by decide
 
-/-- (open C20-F8) the byte-order mark of the file stays in the first line and becomes part of the package name -/
-theorem C20_cex_bom_first_line :
-    (mergeAll current numVer (fun _ => none) [(0, '\uFEFF' :: "p==1.0".toList)]).map (fun e => (e.name, e.version))
-      = [('\uFEFF' :: "p".toList, "1.0".toList)] := by decide
-
 /-- (open C20-F9) an installed / recorded version string that is not PEP 440 makes the install decision raise
 (`InvalidVersion` escapes `install_requirements`): `decidePkg` has no branch that survives it -/
 theorem C20_cex_legacy_installed_version :
     (runOnce current numVer { site := [("p".toList, "2004d".toList)], index := [] } true [("p".toList, "2004d".toList)]
       [(0, "p==1.0".toList)]).2.exc = some "InvalidVersion" := by decide
 
-/-- **Highest pin** (`_partial`: exactly the fragment outside findings C20-F6/F7/F8).  When every line means to the
+/-- **Highest pin** (`_partial`: exactly the fragment outside findings C20-F6/F7).  When every line means to the
 code what it means to the reference (plain name written in its normal form, pin is a version – or the line is ignored
 by both), the recorded version of every package is a correct selection in the
 sense of `Selected`: a highest valid pin; the unpinned marker only if no pin exists; nothing if no line names it. -/
